@@ -49,7 +49,13 @@ fn program(rng: &mut Rng, stack: bool) -> (Program, RefImage) {
             items.push(Item::Orig(gen_origin(rng).clamp(0x200, 0xF000)));
         }
         let n = 6 + rng.below(14) as usize;
-        let names = ["alpha", "data1", "mid_", "tail", "str_", "zed"];
+        // (labels spelled like numbers, registers with a second digit or foreign mnemonics are labels
+        // to the assembler, and therefore to `eval`)
+        let names = *rng.pick(&[
+            ["alpha", "data1", "mid_", "tail", "str_", "zed"],
+            ["100", "7", "mid_", "b10", "str_", "r10"],
+            ["nop", "sp", "007", "o17", "str_", "R77"],
+        ]);
         let mut used = 0;
         for k in 0..n {
             let label = if (k % 3 == 0 || rng.chance(1, 5)) && used < names.len() {
